@@ -15,10 +15,19 @@ let rec uniq = function [] -> [] | x :: r -> x :: uniq (List.filter (fun y -> y 
 
 (* ---- description -> model ---- *)
 let parse_tables (s : string) : csrc =
-  let entries = List.map (fun p ->
+  let all = List.map (fun p ->
       match String.split_on_char '=' p with
-      | [name; rows] -> (name, int_of_string rows)
+      | [name; rows] -> (name, rows)
       | _ -> failwith "tables") (split_on ',' s) in
+  let is_g name = String.length name > 2 && String.sub name 0 2 = "g:" in
+  (* g:key=hexwritten:hexvalue : scalar variable of source g; the model takes its computed value *)
+  let gvars = List.filter_map (fun (name, v) ->
+      if is_g name then
+        (match String.split_on_char ':' v with
+         | [_; value] -> Some (bs (String.sub name 2 (String.length name - 2)), bytes_of_hex value)
+         | _ -> failwith "gvar")
+      else None) all in
+  let entries = List.filter_map (fun (name, v) -> if is_g name then None else Some (name, int_of_string v)) all in
   let tables = List.filter_map (fun (name, r) ->
       if String.contains name '.' then None
       else Some (bs name, List.init r (fun i ->
@@ -31,7 +40,7 @@ let parse_tables (s : string) : csrc =
           Some (src, (bs lst, List.init n (fun i -> bs (src ^ "-" ^ String.sub lst 0 1 ^ string_of_int i))))
       | None -> None) entries in
   let srcs = uniq (List.map fst vl) in
-  { cs_tables = tables; cs_glob = [ (bs "a", bs "va"); (bs "b", bs "vb") ];
+  { cs_tables = tables; cs_glob = gvars @ [ (bs "a", bs "va"); (bs "b", bs "vb"); (bs "k7", bs "7"); (bs "k2", bs "2") ];
     cs_vlists = List.map (fun src -> (bs src, List.map snd (List.filter (fun (x, _) -> x = src) vl))) srcs }
 
 let parse_mapping (m : string) : n list * pexpr =
@@ -41,6 +50,7 @@ let parse_mapping (m : string) : n list * pexpr =
   | [v; "I"; src; i; f] -> (bs v, PIdx (bs src, z_of_string i, bs f))
   | [v; "G"; k] -> (bs v, PGlob (bs k))
   | [v; "V"; src; l] -> (bs v, PVNext (bs src, bs l))
+  | [v; "F"; _written; value] -> (bs v, PCall (if value = "!" then None else Some (bytes_of_hex value)))
   | [v; "P"; r; x] -> (bs v, PPost (bs r, bs x))
   | [v; "Q"; r; x] -> (bs v, PPre (bs r, bs x))
   | _ -> failwith ("mapping " ^ m)
@@ -51,6 +61,7 @@ let parse_post (p : string) : cpost =
   | ["H"; v] -> CHeader (bs v)
   | ["A"; c] -> CStatus (z_of_string c)
   | ["B"] -> CBody
+  | ["HE"; _] -> CBroken
   | _ -> failwith ("post " ^ p)
 
 let parse_reqs (s : string) : creq list =
@@ -62,7 +73,7 @@ let parse_reqs (s : string) : creq list =
           let tmpl = String.sub tmpl 0 (tl - String.length suffix) in
           { cq_name = bs name; cq_id = n_of_int i; cq_iter = n_of_int 0;
             cq_pre = List.map parse_mapping (split_on '+' pre);
-            cq_post = List.map parse_post (split_on '+' post);
+            cq_post = List.map parse_post (List.filter (fun p -> p <> "J0" && p <> "H0") (split_on '+' post));
             cq_tmpl = (if tmpl = "-" then TNone
                        else if tmpl.[0] = 'E' then TBad
                        else if tmpl.[0] = 'X' then TRefBad (bs (String.sub tmpl 2 (String.length tmpl - 2)))
@@ -368,8 +379,24 @@ let predict (c : string) (obs : string) : string * string * bool =
         let rec after_fail = function
           | a :: (b :: _ as r) -> (String.length a >= 3 && String.sub a 0 3 = "err" && String.sub b 0 2 = "ok") || after_fail r
           | _ -> false in
-        (p, verdict (obs = String.concat " " w)
-           "a request part was not rendered from the templates and the variable tree of its own step (URI, header or body differs, or the rendering failed / succeeded against the specification)",
+        let o = String.split_on_char ' ' obs in
+        let why =
+          if List.length o <> List.length w then "the run did not complete"
+          else List.fold_left2 (fun acc a b ->
+              if acc <> "" || a = b then acc
+              else begin
+                let pa = String.split_on_char ':' a and pb = String.split_on_char ':' b in
+                match pa, pb with
+                | "err" :: _, "ok" :: _ -> "tmpl-rendered-though-a-template-of-the-step-fails: the step must fail on its template error, a request was produced instead"
+                | "ok" :: _, "err" :: _ -> "tmpl-failed-though-every-template-renders: a rendering that must succeed on the tree of its step failed"
+                | ["ok"; u1; h1; _], ["ok"; u2; h2; _] ->
+                    if u1 <> u2 then "tmpl-uri-differs: the URI was not rendered from its own template and the variable tree of its own step"
+                    else if h1 <> h2 then "tmpl-header-differs: a header was not rendered from its own template and the variable tree of its own step"
+                    else "tmpl-body-differs: the body was not rendered from its own template and the variable tree of its own step"
+                | "err" :: _, "err" :: _ -> "tmpl-failure-in-another-part: the template error was reported for another part of the request"
+                | _ -> "tmpl-panic: the templater panicked"
+              end) "" w o in
+        (p, verdict (why = "") why,
          after_fail w)
       end else (p, "ok", false)
   | ["path"; tree; draws; paths] ->
